@@ -14,11 +14,12 @@ TECHNIQUE = ("differential testing of the merkle functions against a naive Pytho
              "to an in-process regtest node with every answer re-judged offline from the logged raw transactions; ASan+UBSan")
 RULE = ("(a) hash lists: every length 0..64 with distinct leaves, every 'last k nodes of level L repeated' duplication for lengths 1..64, random "
         "lists of length 1..300 with tail duplications / inner equal sibling subtrees / arbitrary duplicates; generated blocks for "
-        "BlockMerkleRoot / BlockWitnessMerkleRoot / TransactionMerklePath. (b) one history = base chain + 8 rounds; a round = a valid block B "
+        "BlockMerkleRoot / BlockWitnessMerkleRoot / TransactionMerklePath. (b) one history = base chain + 6 (quick) or 8 (thorough) rounds; a round = a valid block B "
         "(0..7 txs; none / some / only witness spends; with or without commitment; on the tip or as a sibling + child) and all its same-header "
         "variants (root-preserving tail duplications incl. iterated, other tx lists, stripped / altered / extended witnesses, wrong reserved-value "
         "size or content, unexpected witness, combinations) delivered in the orders {variant, genuine}, {header, variant(s), genuine}, {same "
-        "object x3, genuine}, {three variants, genuine}, {all variants, genuine}, {genuine, variant(s)}; plus coinbase-less blocks of 63..65-byte "
+        "object x3, genuine}, {three variants, genuine}, {all variants, genuine}, {genuine, variant(s)}; plus own-header blocks whose commitment is "
+        "wrong in one byte and coinbase-less blocks of 63..65-byte "
         "transactions for IsBlockMutated. Non-trivial: a list with > 1 element or a duplicate; a round in which at least one variant precedes "
         "the genuine block (distinct by order, placement, tx count, variant kinds, block hash).")
 ASSUMPTIONS = ["hashlib SHA-256 is correct",
@@ -31,7 +32,7 @@ REQUIRED = ["lists", "blocks", "paths", "mutated_true", "mutated_false", "odd_le
             "same_object_redelivered", "bm_order_VG", "bm_order_HVG", "bm_order_V3G-same", "bm_order_V3G", "bm_order_ALLG", "bm_order_GV",
             "bm_place_tip", "bm_place_sibling", "sibling_connected", "bm_committed_blocks", "bm_uncommitted_blocks",
             "bm_reason_bad-txns-duplicate", "bm_reason_bad-txnmrklroot", "bm_reason_bad-witness-merkle-match", "bm_reason_bad-witness-nonce-size",
-            "bm_reason_unexpected-witness", "bm_tx64_flagged", "bm_isblockmutated_probes"]
+            "bm_reason_unexpected-witness", "own_badcommit_rej", "bm_tx64_flagged", "bm_isblockmutated_probes"]
 LEVEL_TEXT = "held on the generated lists and delivery histories"
 LEVEL_NOTE = "trusted: SHA-256, the Python parser/merkle/commitment reference, the fixture's index inspection"
 
@@ -41,7 +42,7 @@ def runs(tier, seed):
         return [Run("merkle", cases=200000, params={"maxn": 300}, timeout=3000, name="merkle"),
                 Run("blockmut", cases=1000, params={"rounds": 8}, timeout=3000, name="blockmut")]
     return [Run("merkle", cases=5000, params={"maxn": 300}, timeout=1200, name="merkle"),
-            Run("blockmut", cases=32, params={"rounds": 8}, timeout=1200, name="blockmut")]
+            Run("blockmut", cases=32, params={"rounds": 6}, timeout=1200, name="blockmut")]
 
 
 def check(rec, st):
